@@ -40,7 +40,12 @@ class LongTypeForPython3(int):
         Replacement repr() and str() for Python3.
         This ensures we get the "L" suffix on long types.
         """
-        return f"""{self.value}L"""
+        try:
+            return f"""{self.value}L"""
+        except ValueError:
+            # More digits than the interpreter's limit for converting an
+            # int to a decimal string: show it in hexadecimal.
+            return f"""{hex(self.value)}L"""
 
 
 class UnicodeForPython3(str):
